@@ -53,7 +53,9 @@ def main():
         },
         "engines": [{"name": e, "path": "spec/", "serves_properties": sorted(set(v)),
                      "kind_free_text": "TLA+ specification (reference + implementation-shaped model), TLC model checking, TLC-judged trace/observation validation of the real code"}
-                    for e, v in sorted(engines.items())],
+                    for e, v in sorted(engines.items())] + [
+            {"name": "TmplSem", "path": "spec/tmplsem/", "serves_properties": [],
+             "kind_free_text": "extension of the specification beyond the listed properties: TLA+ reference interpreter of the template language's control constructs (if/for/range/switch/break/continue, macros, using, default, truthiness), TLC-enumerated template trees replayed into the real renderer; run with ./check X01 (never prints VIOLATION: mismatches are DIAGNOSTIC lines in evidence-extra/X01.json; it found three defects that were fixed: 3cb1889, e552f8c, 9274ce4)"}],
         "checks": checks,
         "not_applicable": na,
         "notes": "All verdicts are computed by TLC evaluating the property-level predicates of the TLA+ specifications on observations of the real code (DESIGN.md section 2). Exit 2 = machinery failure, never a verdict.",
